@@ -398,6 +398,7 @@ def rule_p_pre(prog, res):
             for s in blk["stmts"]:
                 if s["k"] == "assign" and s["rv"]["k"] == "aggregate" and s["rv"].get("path") == "message_frame::MessageFrame":
                     builders.add(p)
+    builders -= prog.derived_clone_fns("message_frame::MessageFrame")
     res.ob("P-pre", "MessageFrame values are built only by MessageFrame::new", builders == {"message_frame::MessageFrame::new"}, str(sorted(builders)), f.loc)
 
 
@@ -483,12 +484,12 @@ def bitsem_summary(prog):
             continue
         adt = prog.adts.get(adt_name)
         fields = [x["name"] for x in adt["variants"][0]["fields"]] if adt else []
-        if sorted(fields) != ["data", "offset"]:
+        if "data" not in fields or "offset" not in fields:
             out[kind] = {"partitions": 0, "asserts_decided": 0, "assert_sites": [], "shift_sites": [], "expected": 8 * sum(ws),
-                         "problems": {"struct": {"first": None, "count": 1, "text": "%s does not have exactly the fields data, offset: %s" % (adt_name, fields)}}}
+                         "problems": {"struct": {"first": None, "count": 1, "text": "%s does not have the fields data and offset: %s" % (adt_name, fields)}}}
             continue
         order = (fields.index("data"), fields.index("offset"))
-        h = hashlib.sha256((json.dumps(f.rec["blocks"], sort_keys=True) + json.dumps(f.rec["locals"], sort_keys=True) + repr(ws) + repr(order)
+        h = hashlib.sha256((json.dumps(f.rec["blocks"], sort_keys=True) + json.dumps(f.rec["locals"], sort_keys=True) + repr(ws) + repr(order) + repr(len(fields))
                             + open(bitsem.__file__).read()).encode()).hexdigest()[:24]
         cpath = os.path.join(engine.CACHE, "bitsem-%s.json" % h)
         r = None
@@ -498,7 +499,7 @@ def bitsem_summary(prog):
             except Exception:
                 r = None
         if r is None:
-            a = bitsem.analyse(prog, path, kind, widths=ws, field_order=order)
+            a = bitsem.analyse(prog, path, kind, widths=ws, field_order=order, nfields=len(fields))
             r = {"partitions": a["partitions"], "asserts_decided": a["asserts_decided"],
                  "assert_sites": sorted([list(x) for x in a["assert_sites"]], key=str), "shift_sites": sorted(x for x in a["shift_sites"] if x is not None),
                  "expected": 8 * sum(ws), "problems": {k: {"first": list(v["first"]), "count": v["count"], "text": v["text"]} for k, v in a["problems"].items()}}
